@@ -64,12 +64,15 @@ class U:
         self.assumptions = set()
         self.no_spec = set()
         self.dim_order = []
+        self.native_scn = None      # (scenario name, params): replay the whole history natively (concrete/scenarios.py)
+        self.native_outs = {}       # label -> symbolic value whose model value is the prediction compared with the native output
 
     # ---- declarations
     def dim(self, name, lo=1, small=None):
         full = self.ctx.prefix + name
         if full not in self.dim_order:
             self.dim_order.append(full)
+        DIM_LO[(self.udef.name, full)] = max(lo, DIM_LO.get((self.udef.name, full), 1))
         if self.mode == "conc":
             v = self.dimvals.get(full, self.dimvals.get(name))
             if v is None:
@@ -192,6 +195,14 @@ class U:
 
     def ns(self, **kw):
         return Namespace(**kw)
+
+    # ---- native scenario replay (units that run a history of calls / stubbed collaborators)
+    def native(self, scenario, **params):
+        self.native_scn = (scenario, params)
+
+    def native_out(self, label, value):
+        self.native_outs[label] = value
+        return value
 
     # ---- running real code
     def _hook(self, interp, fref, selfobj, args, kwargs):
@@ -329,10 +340,15 @@ def explore(udef: UnitDef, mode, dimvals, repo, max_paths=64):
     return runs
 
 
+DIM_LO = {}   # (unit, dim) -> declared lower bound, learnt on the symbolic run; concrete candidates below it are skipped
+
+
 def small_dim_assignments(udef, dim_names, cap=24):
     doms = []
     for n in dim_names:
-        doms.append(udef.dims_small.get(n, (1, 2, 3)))
+        lo = DIM_LO.get((udef.name, n), 1)
+        dom = tuple(v for v in udef.dims_small.get(n, (1, 2, 3)) if v >= lo)
+        doms.append(dom or (lo,))
     combos = list(itertools.product(*doms))
     # order by total size so the smallest counterexample is found first
     combos.sort(key=lambda c: (sum(c), c))
@@ -407,15 +423,29 @@ def make_replay(u: U, ob, model, dimvals):
             scal[n] = vc._val(model, cst, dt)
         except Exception:
             pass
-    return {"unit": u.udef.name, "obligation": ob.name, "kind": ob.kind, "loc": ob.loc, "note": ob.note,
-            "dims": dimvals, "witness_scalars": scal, "calls": calls}
+    rp = {"unit": u.udef.name, "obligation": ob.name, "kind": ob.kind, "loc": ob.loc, "note": ob.note,
+          "dims": dimvals, "witness_scalars": scal, "calls": calls}
+    if u.native_scn:
+        try:
+            ins = {}
+            for nm, (t, shape, dt) in u.ctx.inputs.items():
+                if not isinstance(t, SymTensor):   # (z3 function | constant, shape, dtype): wrap as a tensor over its indices
+                    fn = t
+                    t = mk(tuple(shape), dt, (lambda I, fn=fn: fn(*[zint(i) for i in I])) if len(shape) else (lambda I, fn=fn: fn))
+                ins[nm] = {"__tensor__": vc.tensor_value(model, t)}
+            rp["native"] = {"scenario": u.native_scn[0], "params": u.native_scn[1], "inputs": ins,
+                            "expected": {lab: _jsonable_val(model, v) for lab, v in u.native_outs.items()}}
+        except Exception as e:
+            rp["native"] = {"scenario": u.native_scn[0], "extraction_error": f"{type(e).__name__}: {e}"}
+    return rp
 
 
 QUICK_MS = int(os.environ.get("TVC_QUICK_MS", "8000"))
 PAR = int(os.environ.get("TVC_UNIT_PAR", "4"))
+PORTFOLIO = int(os.environ.get("TVC_PORTFOLIO", "3"))
 
 
-def _solve_forked(jobs, timeout_ms, use_cvc5, cvc5_s=None):
+def _solve_forked(jobs, timeout_ms, use_cvc5, cvc5_s=None, par=None):
     """Solve each (ctx, ob) in a forked child: every query starts from the same solver state
     (verdicts do not depend on the order in which obligations are tried) and up to PAR run at once."""
     import pickle
@@ -425,14 +455,16 @@ def _solve_forked(jobs, timeout_ms, use_cvc5, cvc5_s=None):
     pending = list(enumerate(jobs))
     running = {}  # fd -> (idx, pid, buf)
     while pending or running:
-        while pending and len(running) < PAR:
-            idx, (ctx, ob) = pending.pop(0)
+        while pending and len(running) < (par or PAR):
+            idx, job = pending.pop(0)
+            ctx, ob = job[0], job[1]
+            variant = job[2] if len(job) > 2 else None
             r, w = os.pipe()
             pid = os.fork()
             if pid == 0:
                 os.close(r)
                 try:
-                    res = vc.solve(ctx, ob, timeout_ms=timeout_ms, use_cvc5=use_cvc5, cvc5_s=cvc5_s)
+                    res = vc.solve(ctx, ob, timeout_ms=timeout_ms, use_cvc5=use_cvc5 and not variant, cvc5_s=cvc5_s, seed=variant)
                     payload = {"status": res.status if res.status != "refuted" else "refuted", "backend": res.backend,
                                "secs": res.secs, "reason": res.reason}
                 except Exception as e:  # pragma: no cover
@@ -543,13 +575,21 @@ def run_unit(name, repo_root=None, want_canaries=True, timeout_ms=None):
                                "secs": 0.0, "backend": "z3", "note": rp.get("note", ""), "reason": "counterexample with small concrete dimensions (clause of the unrolled loop)", "replay": rp}
     # phase 3: full budget (z3 then cvc5) for what is still open and has no counterexample
     still = [(ctx, ob) for ctx, ob, _ in open_jobs if ob.name not in found]
-    res3 = _solve_forked(still, timeout_ms or vc.Z3_TIMEOUT_MS, use_cvc5=True) if still else []
+    # portfolio: the default configuration (with cvc5 behind it) plus PORTFOLIO further z3 seeds per open obligation, in parallel;
+    # a proof by any member discharges the obligation (z3's search on these queries is seed-sensitive, the verdict is not)
+    jobs3 = [(ctx, ob, v) for ctx, ob in still for v in ([None] + list(range(1, PORTFOLIO + 1)))]
+    res3all = _solve_forked(jobs3, timeout_ms or vc.Z3_TIMEOUT_MS, use_cvc5=True, par=2 * (PORTFOLIO + 1)) if jobs3 else []
+    res3 = []
+    for k in range(len(still)):
+        grp = res3all[k * (PORTFOLIO + 1):(k + 1) * (PORTFOLIO + 1)]
+        best = next((r for r in grp if r["status"] == "proved"), None) or next((r for r in grp if r["status"] == "refuted"), None) or grp[0]
+        best = dict(best)
+        best["secs"] = max(r["secs"] for r in grp)
+        res3.append(best)
     for n in open_names:
         if seen.get(n) is None:
             del seen[n]
     for (ctx, ob), r in zip(still, res3):
-        if r["status"] == "refuted":
-            r["status"] = "refuted"
         merge(ob, r)
     if side_failed:
         for n in list(seen):
@@ -574,6 +614,23 @@ def run_unit(name, repo_root=None, want_canaries=True, timeout_ms=None):
     out["obligations"] = list(seen.values())
     out["wall_s"] = time.time() - t0
     return out
+
+
+def _distinct_inputs(ctx, limit=24):
+    """Distinctness of the entries of every small float input tensor (a preference for replayable witnesses only)."""
+    import itertools as it
+
+    ax = []
+    for nm, (fn, shape, dt) in ctx.inputs.items():
+        if dt != "f" or not shape or isinstance(fn, SymTensor) or not all(isinstance(n, int) for n in shape):
+            continue
+        tot = 1
+        for n in shape:
+            tot *= n
+        if tot < 2 or tot > limit:
+            continue
+        ax.append(z3.Distinct(*[fn(*[z3.IntVal(i) for i in I]) for I in it.product(*[range(n) for n in shape])]))
+    return ax
 
 
 def _concrete_search(udef, repo, dim_names, need, out, everything=False):
@@ -601,7 +658,14 @@ def _concrete_search(udef, repo, dim_names, need, out, everything=False):
                 if ob.name not in need and not (everything and ob.kind in ("post", "assert") and ob.expect != "sat"):
                     continue
                 try:
-                    r = vc.solve(pr.ctx, ob, timeout_ms=10000, use_cvc5=False)
+                    # prefer a counter-model without ties between float inputs (argmax / sort / topk tie-breaking is
+                    # unspecified in the operation contracts, so a tied witness may not replay); fall back to any model
+                    r = None
+                    dist = _distinct_inputs(pr.ctx)
+                    if dist:
+                        r = vc.solve(pr.ctx, ob, timeout_ms=5000, use_cvc5=False, extra_axioms=dist)
+                    if r is None or r.status != "refuted":
+                        r = vc.solve(pr.ctx, ob, timeout_ms=10000, use_cvc5=False)
                 except Exception as e:
                     continue
                 if r.status == "refuted":
